@@ -214,19 +214,24 @@ pub struct ArrayValue {
 }
 
 impl ArrayValue {
-    fn slice(&mut self, left: Option<usize>, right: Option<usize>) {
+    /// Retain only items in range `left..right`.
+    /// Return `None` if the range starts behind the end of the array or ends before its start.
+    fn slice(&mut self, left: Option<usize>, right: Option<usize>) -> Option<()> {
         if let Some(items) = self.items.as_mut() {
-            if let Some(left) = left {
-                items.drain(..left);
+            let left = left.unwrap_or_default();
+            if left > items.len() || right.is_some_and(|right| right < left) {
+                return None;
             }
+            items.drain(..left);
 
             if let Some(right) = right {
-                let remove_range = right - left.unwrap_or_default()..;
+                let remove_range = right - left..;
                 if remove_range.start < items.len() {
                     items.drain(remove_range);
                 };
             }
         }
+        Some(())
     }
 }
 
@@ -771,7 +776,7 @@ impl Value {
     ) -> Option<Self> {
         match self {
             Value::Array(mut array) => {
-                array.slice(left, right);
+                array.slice(left, right)?;
                 Some(Value::Array(array))
             }
             Value::Pointer(ptr) => {
@@ -789,14 +794,14 @@ impl Value {
                     ptr.slice(pcx, left, right)
                 }
                 SpecializedValue::Vector(mut vec) => {
-                    vec.slice(left, right);
+                    vec.slice(left, right)?;
                     Some(Value::Specialized {
                         value: Some(SpecializedValue::Vector(vec)),
                         original,
                     })
                 }
                 SpecializedValue::VecDeque(mut vec) => {
-                    vec.slice(left, right);
+                    vec.slice(left, right)?;
                     Some(Value::Specialized {
                         value: Some(SpecializedValue::VecDeque(vec)),
                         original,
